@@ -94,6 +94,7 @@ def describe(tier):
 F, G, F2 = ["f", "a"], ["f", "g"], ["f", "b"]
 ACC, ACC2 = ["acc", "s"], ["acc", "t"]
 CA, CB = ["cache", "A"], ["cache", "B"]
+MUT = ["mut", "m"]
 # a second cache whose file name continues the first one's ("A.pkl" and "A.pkl.b.pkl"): different caches
 CB2 = ["cache", "A.pkl.b"]
 
@@ -148,6 +149,10 @@ def _shapes(tier):
         out.append(("source", elems, None))
     for elems in two[:3] + (two[3:] if thorough else []):
         out.append(("sequence", elems, None))
+    # an element after the cache that changes its values in place: what is stored is the flow as it
+    # passed the cache ((data, context) flows only)
+    out.append(("source", [CA, MUT], None))
+    out.append(("sequence", [CA, MUT, G], None))
     for elems in [[F, CA], [F, CA, G], [F, ACC, CA], [F, CA, F2, CB]]:
         out.append(("nested", elems, None))
     split_one = [[CA], [F, CA], [F, CA, G], [F, ACC, CA], [F, ACC, CA, G]]
@@ -185,6 +190,8 @@ def _flowkinds(placement, elems):
     """The value kind only matters for the pickle round trip: all kinds for a few shapes. "shared" (one
     context object updated in place by the source) only where no element keeps several values at once
     (an accumulator or a Split buffer would legitimately see the last state only)."""
+    if MUT in elems:
+        return ["ctx"]
     if (placement, elems) in _ALL_KINDS:
         return ["ints", "ctx", "falsy"] + (["shared"] if (placement, elems) in _SHARED_KINDS else [])
     return ["ints"]
@@ -270,6 +277,18 @@ class Wrap(object):
         return (self.name, value)
 
 
+class Mutate(object):
+    """Notes itself in the context of the value it is given, in place, and passes the same object on."""
+
+    def __init__(self, name, ev):
+        self.name, self.ev = name, ev
+
+    def __call__(self, value):
+        self.ev.call(self.name)
+        value[1].setdefault("seen", []).append(self.name)
+        return value
+
+
 class Collect(object):
     """fill/compute accumulator: computes the list of everything filled, as ONE value."""
 
@@ -306,6 +325,8 @@ def _make(spec, ev, recompute, caches):
         return Wrap(spec[1], ev)
     if t == "slice":
         return lena.flow.Slice(spec[1])
+    if t == "mut":
+        return Mutate(spec[1], ev)
     if t == "acc":
         return Collect(spec[1], ev)
     if t == "raise":
